@@ -74,9 +74,17 @@ inductive Err where
   | notImplemented
   /-- `pint.UndefinedUnitError` -/
   | undefinedUnit
+  /-- `TypeError: unsupported operand type(s) for *: 'float' and 'decimal.Decimal'` (a float magnitude in the
+      Decimal registry) -/
+  | floatDecimal
   /-- a branch this model does not cover (never a default answer) -/
   | unmodelled
 deriving DecidableEq, Repr
+
+/-- errors of `compare_values` that are about the values or the operator, not about units or names -/
+def Err.isValueError : Err → Bool
+  | .firstNotNumeric | .secondNotNumeric | .invalidOperator | .unmodelled => true
+  | _ => false
 
 instance instDecidableEqExcept {ε α : Type} [DecidableEq ε] [DecidableEq α] : DecidableEq (Except ε α)
   | .ok a, .ok b => if h : a = b then isTrue (by rw [h]) else isFalse (by intro h'; cases h'; exact h rfl)
@@ -449,6 +457,55 @@ def compareValuesOld (T : UnitSys) (op va : String) (ua : Option String) (vb : S
                   | .ok x' => .ok (!decide (x' = y))
               else .error .invalidOperator
         | _, _ => .error .unmodelled
+
+/-! ### `convert_value_to_unit` (used by `Tag.simulate_value_and_unit`, i.e. by the Simulate instruction) -/
+
+/-- Does `registry.convert(value, src, dst)` succeed?  (It does not depend on the value.) -/
+def convOk (T : UnitSys) (s d : PintUnit) : Bool :=
+  s.canon == d.canon ||
+  (s.dim == d.dim &&
+    (if s.offs.isNone && d.offs.isNone then (lookupFactor T s.canon d.canon).isSome
+     else (lookupFactor T s.ref d.ref).isSome))
+
+/-- `convert_value_to_unit(value, source, target)` with the repair of `fixes/C20-…units….diff`: equal unit names
+    need no pint at all, and the value enters pint as `Decimal(str(value))`.  Only success / the kind of failure is
+    modelled (`DimensionalityError` is turned into `ValueError("Cannot convert between units …")`). -/
+def convertValueOk (T : UnitSys) (src dst : String) : Except Err Unit :=
+  if src = dst then .ok () else
+  match pintUnit T src with
+  | .error e => .error e
+  | .ok ps =>
+    match pintUnit T dst with
+    | .error e => .error e
+    | .ok pd =>
+      if ps.canon = pd.canon then .ok ()
+      else if ps.dim ≠ pd.dim then .error .conversion
+      else if convOk T ps pd then .ok () else .error .unmodelled
+
+/-- `convert_value_to_unit` at the commit the C20 check was built on: the value is the `float` the parser
+    produced; every conversion that multiplies (anything but identical pint units) raises `TypeError`, and there is
+    no shortcut for equal names, so `CV` (unknown to pint) fails as well. -/
+def convertValueOkOld (T : UnitSys) (src dst : String) : Except Err Unit :=
+  match pintUnit T src with
+  | .error e => .error e
+  | .ok ps =>
+    match pintUnit T dst with
+    | .error e => .error e
+    | .ok pd =>
+      if ps.canon = pd.canon then .ok ()
+      else if ps.dim ≠ pd.dim then .error .conversion
+      else .error .floatDecimal
+
+/-- Every two different units of one quantity can be converted into each other by pint (the quantity has a pint
+    mapping, pint knows both names, the dimensionalities agree and the factors are there).  Checked on the
+    regenerated table; it is what `%` vs `mol%` violated before `mol%` was made a plain percentage. -/
+def UnitSys.Convertible (T : UnitSys) : Bool :=
+  T.rows.all fun ra => T.rows.all fun rb =>
+    !(ra.quantity == rb.quantity) || ra.name == rb.name ||
+    (T.pintKeys.contains ra.quantity &&
+      match ra.pint, rb.pint with
+      | some pa, some pb => convOk T pa pb
+      | _, _ => false)
 
 /-! ### Reference semantics (exact) -/
 
